@@ -1,11 +1,13 @@
 #![allow(dead_code, unused_mut)]
 mod c01;
 mod c11;
+mod codes;
 mod common;
 mod explore;
 mod monitor;
 mod scen;
 mod sim;
+mod t1props;
 mod selftest;
 
 use common::*;
@@ -43,6 +45,10 @@ fn main() {
             let ctx = Ctx { prop: args[2].clone(), tier, seed, start: Instant::now() };
             let out = match args[2].as_str() {
                 "C01" => c01::run(&ctx),
+                "C02" => t1props::run_c02(&ctx),
+                "C04" => t1props::run_c04(&ctx),
+                "C06" => t1props::run_c06(&ctx),
+                "C17" => t1props::run_c17(&ctx),
                 "C11" => c11::run(&ctx),
                 _ => {
                     eprintln!("unknown property {}", args[2]);
@@ -63,6 +69,10 @@ fn main() {
                 c11::replay(&v)
             } else if h == "c01.t1" {
                 c01::replay_c01(&v)
+            } else if h == "c17.code" {
+                codes::replay(&v)
+            } else if let Some(r) = t1props::replay_t1(&v) {
+                r
             } else {
                 eprintln!("unknown harness {}", h);
                 std::process::exit(2);
